@@ -258,6 +258,31 @@ func nilSlotDiscipline(c *core.Ctx, rule string, sessF *types.Var, scope map[*ss
 					continue
 				}
 				k++
+				if ph, isPhi := r.(*ssa.Phi); isPhi {
+					// results of an expanded helper merge here: the element arrives on an edge where it is known
+					// non-nil, and the merged value is only handed out (returned), never dereferenced
+					okEdges := true
+					for j, e := range ph.Edges {
+						if e == ssa.Value(ld) && !core.NilKnownAt(ph.Block().Preds[j], ld, false) {
+							okEdges = false
+						}
+					}
+					onlyReturned := ph.Referrers() != nil
+					if onlyReturned {
+						for _, u := range *ph.Referrers() {
+							switch u.(type) {
+							case *ssa.Return, *ssa.DebugRef:
+							default:
+								onlyReturned = false
+							}
+						}
+					}
+					if okEdges && onlyReturned {
+						c.Check(rule, fmt.Sprintf("nil-slot:%s:%s#%d", core.FnName(fn), "return", k), r.Pos(), true,
+							"session-table element is known non-nil on the edge that carries it to the returned value")
+						continue
+					}
+				}
 				c.Check(rule, fmt.Sprintf("nil-slot:%s:%s#%d", core.FnName(fn), use, k), r.Pos(),
 					slotNonNilAt(p, r, ld, sessF),
 					"session-table element is known non-nil (dominating nil test on the same value) before: "+use)
